@@ -15,6 +15,27 @@ CLAIMS = {
     },
 }
 
+CLAIMS.update({
+    "C11": {
+        "text": "For the six TLV readers of der.py (found by role) and the two primitive readers: abstract interpretation on an arbitrary buffer shows that only UnexpectedDER escapes and that at every normal return the declared length lies within the buffer, the remainder is exactly buffer[1+llen+length:] and the value is built from exactly the declared body; the DER minimality rules (short/long length form, no leading zero length byte, long form only for >= 0x80, non-empty non-negative minimally-encoded INTEGER, BIT STRING unused bits 0..7 / expected value / zero padding / non-empty when unused != 0, padded OID sub-identifier) are entailment queries on role-defined byte terms at the return states; writer and reader tag bytes are cross-checked; encoders have no normal return outside their domain. Decides 'accept only canonical, never beyond the buffer, exact remainder'; does not decide value round-trips (hex / base-128 arithmetic).",
+        "note": "A1-A7; the integer value of a byte string is an uninterpreted term int_of(hex(x)); remove_object's arc arithmetic and encode_number/read_number value agreement are not decided.",
+        "technique": "abstract interpretation with entailment queries at return states (decision facts on role-defined terms) + sibling tag table",
+        "design": "DESIGN.md section 3 C11",
+    },
+    "C12": {
+        "text": "Strictness and pairing of the signature codecs: the raw decoders establish len == 2*orderlen(order) (string) / exactly two items of orderlen(order) bytes (strings) before any conversion and map the halves/items to (r, s) in order, with only MalformedSignature escaping; the DER decoder lets only UnexpectedDER escape, every remainder returned by a DER reader is consumed by the next reader or proven empty at return (no trailing bytes), and (r, s) are the first and second INTEGER of the SEQUENCE body; writers emit r then s through number_to_string with the same order / SEQUENCE[INTEGER r, INTEGER s]; the helper pair is length-exact on orderlen(order). Decides 'fixed size, strictly decoded, no second accepted encoding' together with C11's minimality facts; does not decide that the hex arithmetic is inverse to int().",
+        "note": "A1-A7; orderlen(order) is the symbolic term (1 + len('%x' % order)) // 2, identical on both sides by hash-consing.",
+        "technique": "abstract interpretation: length entailment at return states, rest-consumption rule over DER reader results, term-structure comparison writer vs reader",
+        "design": "DESIGN.md section 3 C12",
+    },
+    "C13": {
+        "text": "For each of the three canonical encoders (found by role) and every s in [1, order-1] symbolically: at the delegation to the plain sibling the forwarded s' provably satisfies 2*s' <= order (an inexact float threshold leaves this unproven and is reported), s' is s or order - s, r and order are forwarded unchanged, the sibling is the plain encoder of the same format and every return value is that sibling's result. This is the first sentence of the property; equivalence of (r, n-s) under verification is algebra and not decided.",
+        "note": "A1-A7; true division yields an abstract float on which no ordering fact is derived, so only exact integer comparisons can discharge R13.1.",
+        "technique": "abstract interpretation over linear integer constraints (floor-division modelled exactly), call-site entailment",
+        "design": "DESIGN.md section 3 C13",
+    },
+})
+
 NOT_YET = "check not built yet (framework under construction; design in DESIGN.md section 3)"
 
 
